@@ -414,6 +414,8 @@ pub enum Op {
     ClockRead,
     Poll,
     Small,
+    /// drawing from the system's entropy source (and what is usually done with it: making a key)
+    Entropy,
 }
 
 #[derive(Clone, Debug, PartialEq)]
@@ -703,6 +705,7 @@ impl World {
             Op::ClockRead => 30_000,
             Op::Poll => 1000,
             Op::Small => 200,
+            Op::Entropy => 20_000,
         };
         // +-50 % jitter from the auxiliary stream (not on the tape: it is a function of aux_seed)
         let j = 500 + self.aux_rng.below(1001);
@@ -1560,6 +1563,11 @@ pub fn wall_peek() -> i128 {
 }
 
 pub fn entropy(consumer: &'static str, buf: &mut [u8]) {
+    // takes time and is a scheduling point: start-up, which is mostly key generation, then has a
+    // duration, and what one thread does while another is still starting can be observed
+    if in_task() && !std::thread::panicking() {
+        yield_point(Op::Entropy);
+    }
     with(|w| w.entropy(consumer, buf))
 }
 
